@@ -381,9 +381,14 @@ func (s *Sim) draw(kind byte, n int, gen func() int) int {
 func Choose(n int) int {
 	s := cur
 	t := self()
-	if t == nil || t != s.current {
-		engineError("Choose by a task that is not the released one")
-		panic("dsim: Choose by a task that is not the released one")
+	if t == nil {
+		engineError("Choose outside a task")
+		panic("dsim: Choose outside a task")
+	}
+	if t != s.current {
+		// a task woken inside a blocking call is not the released one: draws are totally
+		// ordered only among released tasks, so become one first
+		park(t, "choose", rPark, nil)
 	}
 	return s.draw(KUser, n, nil)
 }
@@ -394,9 +399,12 @@ func Choose(n int) int {
 func ChooseKind(kind byte, n int) int {
 	s := cur
 	t := self()
-	if t == nil || t != s.current {
-		engineError("Choose by a task that is not the released one")
-		panic("dsim: Choose by a task that is not the released one")
+	if t == nil {
+		engineError("Choose outside a task")
+		panic("dsim: Choose outside a task")
+	}
+	if t != s.current {
+		park(t, "choose", rPark, nil)
 	}
 	return s.draw(kind, n, nil)
 }
